@@ -438,7 +438,7 @@ def case(ctx, rng, idx, state):
 if __name__ == "__main__":
     harness.main(
         PROP, "exploration", case, setup_fn=setup,
-        tiers=dict(quick=dict(cases=640, shards=8, time=100), thorough=dict(cases=16000, shards=16, time=600)),
+        tiers=dict(quick=dict(cases=640, shards=8, time=900), thorough=dict(cases=16000, shards=16, time=3000)),
         rule="random Hermitian real-space models (1-7 WFs odd and even, Bravais/random lattices, thinned -R-symmetric R "
              "balls, centres inside/outside/co-centred/high-symmetry/zero/below the 1e-7 print threshold, 3D and 2D "
              "periodic, random sets of extra matrices, point groups from lattice-compatible generators) pushed through "
